@@ -20,4 +20,5 @@ run 8219055 "bash prefix stripping quoting" "C07"
 run a4fe789 "DOT escaping" "C16"
 run 753c40f "input pool equality as sets" "C10 C02"
 run 239cc0e "minimisation early break" "C03 C02"
+run e79f72e "compadd candidate tables in the shape comparison" "C04"
 echo DONE >> $out
